@@ -33,6 +33,8 @@ UNIT = dict(
         dict(id="Event::signals", kind="fn", src=E + "event.rs", impl="impl Event", name="signals", rules=dict(vec_idioms=True)),
         dict(id="Event::paths", kind="fn", src=E + "event.rs", impl="impl Event", name="paths",
              rules=dict(vec_idioms=True, pre_subst=[("path.as_path()", "*path"), ("file_type.as_ref()", "*file_type")])),
+        dict(id="Handler::signals", kind="fn", src=L + "action/handler.rs", impl="impl Handler", name="signals",
+             rules=dict(vec_idioms=True, pre_subst=[("flat_map(Event::signals)", "flat_map(|e| e.signals())")])),
         dict(id="signal::send_event", kind="fn", src=L + "sources/signal.rs", name="send_event"),
         dict(id="keyboard::send_event", kind="fn", src=L + "sources/keyboard.rs", name="send_event"),
         dict(id="fs::process_event", kind="fn", src=L + "sources/fs.rs", name="process_event", rules=dict(question_from="vx_id")),
